@@ -141,7 +141,7 @@ impl Call {
     }
     /// part of the statement's own API alphabet
     fn in_statement(self) -> bool {
-        !matches!(self, Call::GetRssi)
+        !matches!(self, Call::GetRssi | Call::ProcessIrq | Call::GetRxResult)
     }
 }
 
@@ -281,6 +281,9 @@ struct Driver<'a, RK: RadioKind, C: Probe> {
     log: Vec<String>,
     /// configuration losses of the chip before the sequence started (construction resets once)
     losses_base: u32,
+    /// an explicit init() has failed and no later init() has succeeded: the history class that
+    /// goes into the signatures of clauses (b) and (c)
+    failed_init: bool,
 }
 
 fn err_variant(e: &RadioError) -> String {
@@ -340,11 +343,11 @@ impl<'a, RK: RadioKind, C: Probe> Driver<'a, RK, C> {
         let before = self.mode();
         let before_name = mode_name(before);
         let continuous = before == RadioMode::Receive(RxMode::Continuous) || call == Call::Listen;
-        let (t0, a0, o0) = {
+        let (t0, a0, o0, chip_before) = {
             let mut sh = self.bus.borrow_mut();
             sh.chip.set_default_outcome(profile.events(self.var.is_126x(), continuous));
             sh.chip.set_next_packet(Some(vec![0x60, 1, 2, 3, 4, 5, 6]));
-            (sh.chip.transcript().len(), sh.chip.alarms().len(), sh.chip.op_starts().len())
+            (sh.chip.transcript().len(), sh.chip.alarms().len(), sh.chip.op_starts().len(), sh.chip.mode())
         };
         let fault_before = self.bus.borrow().fault_hit.is_some();
         let res = self.exec_raw(call);
@@ -358,6 +361,10 @@ impl<'a, RK: RadioKind, C: Probe> Driver<'a, RK, C> {
         self.log.push(format!("{} [{}] -> {} | driver {} -> {} | chip {}", call.name(), profile.name(), res.name(), before_name, after_name, chip_mode.name()));
         // evidence: distinct (driver mode, chip mode, programmed items, cold_start)
         self.col.state(fnv64(format!("{}|{}|{:x}|{}", after_name, chip_mode.name(), sh.chip.prog(), self.lora.verif_cold_start()).as_bytes()));
+        if call == Call::Init {
+            self.failed_init = !matches!(res, Res::Ok);
+        }
+        let tainted = self.failed_init && call != Call::Init;
         let fam = self.var.family();
         let mk_detail = |extra: Value| -> Value {
             json!({
@@ -379,13 +386,13 @@ impl<'a, RK: RadioKind, C: Probe> Driver<'a, RK, C> {
                 self.col.event("wrong_mode_calls");
                 if !is_refusal {
                     self.found.push(Found {
-                        sig: format!("C14|{}|a|{}|mode={}|not-refused", fam, call.api(), before_name),
+                        sig: format!("C14|lora|a-not-refused|{}|{}|mode={}", fam, call.api(), before_name),
                         what: "a call made in the wrong mode was not refused with an error".into(),
                         detail: mk_detail(json!({"required_mode": req})),
                     });
                 } else if t1 != t0 {
                     self.found.push(Found {
-                        sig: format!("C14|{}|a|{}|mode={}|commanded-chip", fam, call.api(), before_name),
+                        sig: format!("C14|lora|a-refused-but-commanded-chip|{}|{}|mode={}", fam, call.api(), before_name),
                         what: "a call refused for its mode still sent transactions to the chip".into(),
                         detail: mk_detail(json!({"required_mode": req, "transactions": t1 - t0})),
                     });
@@ -396,8 +403,8 @@ impl<'a, RK: RadioKind, C: Probe> Driver<'a, RK, C> {
         // ---- (b) chip commanded while asleep ----------------------------------------------------
         for al in sh.chip.alarms()[a0..].iter() {
             if !call.in_statement() {
-                // get_rssi is not in the statement's API alphabet: observation only
-                self.col.event("observed_get_rssi_reaching_a_sleeping_chip");
+                // get_rssi / process_irq_event are not in the statement's API alphabet: observation only
+                self.col.event(if call == Call::GetRssi { "observed_get_rssi_reaching_a_sleeping_chip" } else { "observed_process_irq_event_reaching_a_sleeping_chip" });
                 stop = true;
                 continue;
             }
@@ -408,7 +415,7 @@ impl<'a, RK: RadioKind, C: Probe> Driver<'a, RK, C> {
             };
             self.col.event("alarm_b");
             self.found.push(Found {
-                sig: format!("C14|{}|b|{}|{}|driver={}", fam, kind, call.api(), before_name),
+                sig: if tainted { format!("C14|lora|after-failed-init|{}|b-{}|{}", fam, kind, call.api()) } else { format!("C14|lora|b-{}|{}|{}|driver={}", kind, fam, call.api(), before_name) },
                 what: "the chip was commanded while asleep without being woken first".into(),
                 detail: mk_detail(json!({"chip_alarm": format!("{:?}", al)})),
             });
@@ -435,7 +442,11 @@ impl<'a, RK: RadioKind, C: Probe> Driver<'a, RK, C> {
             if missing != 0 && call.in_statement() {
                 self.col.event("alarm_c");
                 self.found.push(Found {
-                    sig: format!("C14|{}|c|{:?}-start|{}|missing={}", fam, os.kind, call.api(), item::names(missing)).to_lowercase(),
+                    sig: if tainted {
+                        format!("C14|lora|after-failed-init|{}|c-{}-start|{}|missing={}", fam, format!("{:?}", os.kind).to_lowercase(), call.api(), item::names(missing))
+                    } else {
+                        format!("C14|lora|c-{}-start|{}|{}|missing={}", format!("{:?}", os.kind).to_lowercase(), fam, call.api(), item::names(missing))
+                    },
                     what: "an operation was started although configuration it depends on had not been programmed since the last reset / cold sleep".into(),
                     detail: mk_detail(json!({"operation": format!("{:?}", os.kind), "missing_items": item::names(missing), "chip_mode_at_start": os.from.name()})),
                 });
@@ -452,27 +463,48 @@ impl<'a, RK: RadioKind, C: Probe> Driver<'a, RK, C> {
                 let chip_ok = chip_mode.is_standby();
                 let driver_ok = after == RadioMode::Standby;
                 // did the driver try to force standby after the failure point?
-                let from = sh.fault_hit.filter(|_| fault_now).unwrap_or(t0).max(t0);
+                // (after the fault, and after the last start of an operation within this call)
+                let last_start = sh.chip.op_starts()[o0..].last().map(|o| o.txn + 1).unwrap_or(t0);
+                let from = sh.fault_hit.filter(|_| fault_now).unwrap_or(t0).max(t0).max(last_start);
                 let attempted = sh.chip.transcript()[from.min(t1)..t1].iter().any(|x| is_standby_cmd(self.var, &x.mosi));
-                let origin = match (&res, fault_kind) {
-                    (Res::Panic(_, _, k), _) => format!("panic:{}", k),
-                    (Res::Err(e), Some(k)) => format!("fault:{:?}->{}", k, e.split('(').next().unwrap_or("")).to_lowercase(),
-                    (Res::Err(e), None) => format!("chip:{}->{}", profile.class(), e.split('(').next().unwrap_or("")),
-                    _ => String::new(),
+                let cause = match &res {
+                    Res::Panic(_, _, k) => format!("panic:{}", k),
+                    _ if attempted => "standby-attempted".to_string(),
+                    _ => "no-standby-attempt".to_string(),
                 };
-                if !chip_ok {
+                let origin = match (&res, fault_kind) {
+                    (Res::Err(_), Some(k)) => format!("{:?} fault", k),
+                    (Res::Err(e), None) => format!("chip outcome {} -> {}", profile.class(), e),
+                    _ => "panic".to_string(),
+                };
+                // a single fault that hits the driver's own attempt to force standby: the bus
+                // failed in the recovery itself, nothing can be demanded
+                let fault_in_recovery = fault_now
+                    && fault_kind == Some(FaultKind::Spi)
+                    && sh.fault_hit.map(|i| sh.chip.transcript().get(i).map(|x| is_standby_cmd(self.var, &x.mosi)).unwrap_or(false)).unwrap_or(false);
+                // the strict "driver says Standby" half is judged for the calls the statement's
+                // anchors name (tx, rx/complete_rx, cad); for calls that only start an operation
+                // the driver's mode legitimately keeps denoting the prepared receive
+                // and only when an operation was running on the chip during the call (started by
+                // it or before it): if the failure came before anything started, the chip is still
+                // in the prepared state and the driver's unchanged Transmit/Receive/CAD mode says so
+                let op_ran = !sh.chip.op_starts()[o0..].is_empty() || matches!(chip_before, Mode::Tx | Mode::Rx | Mode::Cad);
+                let judge_driver = matches!(call, Call::Tx | Call::Rx | Call::CompleteRx | Call::Cad) && (op_ran || after != before);
+                if fault_in_recovery {
+                    self.col.event("failed_operations_fault_hit_the_forced_standby(exempt)");
+                } else if !chip_ok {
                     self.col.event("alarm_d_chip");
                     self.found.push(Found {
-                        sig: format!("C14|{}|d|chip-not-in-standby|{}|{}|standby-{}", fam, call.api(), origin, if attempted { "attempted" } else { "not-attempted" }),
+                        sig: format!("C14|lora|d-chip-not-in-standby|{}|{}", call.api(), cause),
                         what: "after a failed or timed-out operation the chip was not left in standby".into(),
-                        detail: mk_detail(json!({"chip_mode": chip_mode.name()})),
+                        detail: mk_detail(json!({"chip_mode": chip_mode.name(), "error_origin": origin})),
                     });
-                } else if !driver_ok {
+                } else if !driver_ok && judge_driver {
                     self.col.event("alarm_d_driver");
                     self.found.push(Found {
-                        sig: format!("C14|{}|d|driver-not-standby|{}|{}|standby-{}|driver={}", fam, call.api(), origin, if attempted { "attempted" } else { "not-attempted" }, after_name),
+                        sig: format!("C14|lora|d-driver-not-standby|{}|{}", call.api(), cause),
                         what: "after a failed or timed-out operation the chip is in standby but the driver's mode is not Standby".into(),
-                        detail: mk_detail(json!({"chip_mode": chip_mode.name()})),
+                        detail: mk_detail(json!({"chip_mode": chip_mode.name(), "error_origin": origin})),
                     });
                 } else {
                     self.col.event("failed_operations_left_in_standby");
@@ -548,7 +580,7 @@ impl<'a> Visitor for RunPlan<'a> {
             sh.arm(plan.fault);
         }
         let losses_base = bus.borrow().chip.losses();
-        let mut d = Driver { var, lora, bus: bus.clone(), mdl, tx_pkt, rx_pkt, rxbuf: [0; 255], col, found: vec![], log: vec![], losses_base };
+        let mut d = Driver { var, lora, bus: bus.clone(), mdl, tx_pkt, rx_pkt, rxbuf: [0; 255], col, found: vec![], log: vec![], losses_base, failed_init: false };
         let plan_json = || {
             json!({
                 "chip": plan.var.name(),
@@ -754,7 +786,16 @@ impl<'a> Visitor for RunWan<'a> {
         let mut buf = [0u8; 255];
         let mut fault_call = None;
         let mut last_setup_continuous = false;
+        // async_device aborts the current procedure on any radio error (`?`); the application's
+        // next action is another uplink, so the flow resumes at the next tx step
+        let mut skip_to_tx = false;
         for (j, st) in plan.steps.iter().enumerate() {
+            if skip_to_tx {
+                if *st != Wan::Tx {
+                    continue;
+                }
+                skip_to_tx = false;
+            }
             let profile = PROFILES[((plan.ovar + j as u64) % NP) as usize];
             let (t0, a0, o0) = {
                 let mut sh = bus.borrow_mut();
@@ -820,7 +861,7 @@ impl<'a> Visitor for RunWan<'a> {
                     Alarm::FifoInSleep => "fifo-access-in-sleep".into(),
                 };
                 col.event("alarm_b");
-                col.violation(&format!("C14|{}|b|{}|adapter.{}", fam, kind, st.api()), "the chip was commanded while asleep without being woken first (through the LoRaWAN adapter)", mk_detail(json!({"chip_alarm": format!("{:?}", al)})));
+                col.violation(&format!("C14|adapter|b-{}|{}|{}", kind, fam, st.api()), "the chip was commanded while asleep without being woken first (through the LoRaWAN adapter)", mk_detail(json!({"chip_alarm": format!("{:?}", al)})));
             }
             for os in sh.chip.op_starts()[o0..].iter() {
                 col.event(match os.kind {
@@ -837,7 +878,7 @@ impl<'a> Visitor for RunWan<'a> {
                 if missing != 0 {
                     col.event("alarm_c");
                     col.violation(
-                        &format!("C14|{}|c|{:?}-start|adapter.{}|missing={}", fam, os.kind, st.api(), item::names(missing)).to_lowercase(),
+                        &format!("C14|adapter|c-{}-start|{}|{}|missing={}", format!("{:?}", os.kind).to_lowercase(), fam, st.api(), item::names(missing)),
                         "an operation was started although configuration it depends on had not been programmed since the last reset / cold sleep (through the LoRaWAN adapter)",
                         mk_detail(json!({"missing_items": item::names(missing)})),
                     );
@@ -848,19 +889,27 @@ impl<'a> Visitor for RunWan<'a> {
             if failed && matches!(st, Wan::Tx | Wan::RxSingle) {
                 col.event("failed_operations");
                 if !chip_mode.is_standby() {
-                    let from = sh.fault_hit.filter(|_| fault_now).unwrap_or(t0).max(t0);
+                    let last_start = sh.chip.op_starts()[o0..].last().map(|o| o.txn + 1).unwrap_or(t0);
+                    let from = sh.fault_hit.filter(|_| fault_now).unwrap_or(t0).max(t0).max(last_start);
                     let attempted = sh.chip.transcript()[from.min(t1)..t1].iter().any(|x| is_standby_cmd(var, &x.mosi));
-                    let origin = match (&r, fault_now) {
-                        (Err(t), _) => format!("panic:{}|{}", t.file(), t.kind()),
-                        (_, true) => format!("fault:{:?}", plan.fault.map(|f| f.kind)).to_lowercase(),
-                        _ => format!("chip:{}", profile.class()),
+                    let cause = match &r {
+                        Err(t) => format!("panic:{}|{}", t.file(), t.kind()),
+                        _ if attempted => "standby-attempted".to_string(),
+                        _ => "no-standby-attempt".to_string(),
                     };
-                    col.event("alarm_d_chip");
-                    col.violation(
-                        &format!("C14|{}|d|chip-not-in-standby|adapter.{}|{}|standby-{}", fam, st.api(), origin, if attempted { "attempted" } else { "not-attempted" }),
-                        "after a failed or timed-out operation the chip was not left in standby (through the LoRaWAN adapter)",
-                        mk_detail(json!({"chip_mode": chip_mode.name()})),
-                    );
+                    let fault_in_recovery = fault_now
+                        && plan.fault.map(|f| f.kind) == Some(FaultKind::Spi)
+                        && sh.fault_hit.map(|i| sh.chip.transcript().get(i).map(|x| is_standby_cmd(var, &x.mosi)).unwrap_or(false)).unwrap_or(false);
+                    if fault_in_recovery {
+                        col.event("failed_operations_fault_hit_the_forced_standby(exempt)");
+                    } else {
+                        col.event("alarm_d_chip");
+                        col.violation(
+                            &format!("C14|adapter|d-chip-not-in-standby|{}|{}", st.api(), cause),
+                            "after a failed or timed-out operation the chip was not left in standby (through the LoRaWAN adapter)",
+                            mk_detail(json!({"chip_mode": chip_mode.name(), "fault_in_this_step": fault_now, "profile": profile.class()})),
+                        );
+                    }
                 } else {
                     col.event("failed_operations_left_in_standby");
                 }
@@ -889,6 +938,7 @@ impl<'a> Visitor for RunWan<'a> {
                 }
                 Ok(Ok(Some(Err(_)))) => {
                     col.event("calls_err");
+                    skip_to_tx = true;
                     false
                 }
             };
@@ -973,7 +1023,8 @@ impl Monitor for C14 {
             "clause (b), SX126x: the wake-up access is a GetStatus transaction (or an empty NSS pulse); any other first byte reaching a sleeping chip is a violation and its command is lost (data sheet 9.3 / 13.1.1: the falling edge of NSS wakes the chip, BUSY stays high until it is ready). SX127x: registers are accessible in sleep mode, so only FIFO access and a TX/RX/CAD request while in sleep mode are flagged".into(),
             "clause (c): items = packet type (SX127x: LongRangeMode bit), sync word, regulator mode (boards that use DC-DC: both SX126x boards here), TCXO control (boards with a TCXO: the SX1261 and SX1276 boards here), buffer base addresses, modulation, packet parameters, IRQ/DIO parameters, RF frequency. PA configuration is tracked but not asserted (not listed by the statement). An RSSI listen() only depends on packet type, modulation and frequency; CAD on packet type, modulation, IRQ parameters and frequency".into(),
             "loss of configuration: SX126x on NRESET and on SetSleep without warm start (everything incl. registers; warm start retains everything except the data buffer); SX127x only on NRESET (registers are retained in sleep mode, the FIFO is not). SetPacketType to a different packet type discards modulation and packet parameters (data sheet 13.4.2)".into(),
-            "clause (d) is judged after tx, rx, complete_rx, cad, start_rx, rx_switch_channel and listen returned Err (incl. time-outs) or panicked, unless the call was refused for its mode; the driver-documented exception is honoured: errors of complete_rx/rx while the driver is in continuous receive leave the mode to the caller. 'chip not in standby' and 'chip in standby but driver mode not Standby' carry different signatures; the latter is the strict reading of 'the driver knows it' (the driver's Transmit/Receive/CAD modes also denote the prepared state, in which the chip is in standby)".into(),
+            "clause (d) is judged after tx, rx, complete_rx, cad, start_rx, rx_switch_channel and listen returned Err (incl. time-outs) or panicked, unless the call was refused for its mode; the driver-documented exception is honoured: errors of complete_rx/rx while the driver is in continuous receive leave the mode to the caller. A single SPI fault that hits the driver's own SetStandby of the recovery is exempt (nothing can be demanded when the bus fails in the recovery itself)".into(),
+            "clause (d), 'the driver knows it': judged only for tx, rx, complete_rx and cad (the calls the statement's anchors name), as 'driver mode is Standby', and only if an operation was running on the chip during the failed call; when the failure precedes the start command the chip is still in the prepared state that the driver's unchanged Transmit/Receive/CAD mode denotes, which is agreement. 'chip not in standby' and 'chip in standby but driver mode not Standby' carry different signatures".into(),
             "an SPI fault means the transaction never reached the chip; a BUSY fault means the command was delivered and the wait on BUSY failed; an IRQ fault means the wait on the interrupt line failed. Faults where the chip executes a command whose SPI transfer reported an error are not generated".into(),
             "SX126x receive duty cycle: the sleep phases of the chip are not modelled (the chip is treated as awake in RX); SetSleep is accepted from every mode although the data sheet asks for standby; prepare_for_rx(duty) is not generated on SX127x (unsupported, documented)".into(),
             "SX126x header error in single receive: the chip raises HeaderErr and keeps receiving (the data sheet does not say that it leaves RX); SX127x drops a packet with a bad header silently".into(),
